@@ -326,11 +326,8 @@ func WorkerMain(args []string) int {
 	pid := os.Getpid()
 	for g := 0; g < nG; g++ {
 		wg.Add(1)
-		go func(g int) {
+		body := func(g int) {
 			defer wg.Done()
-			if spec.LockThread && nG == 1 {
-				// keep the single goroutine on the main thread for strace enumeration
-			}
 			if g < len(spec.SkewUS) && spec.SkewUS[g] > 0 {
 				time.Sleep(time.Duration(spec.SkewUS[g]) * time.Microsecond)
 			}
@@ -376,7 +373,12 @@ func WorkerMain(args []string) int {
 				res["ts"] = c16now()
 				c16emit(out, &omu, res)
 			}
-		}(g)
+		}
+		if spec.LockThread && nG == 1 {
+			body(g) // stay on the locked main thread: strace's when=N then counts this thread's syscalls
+		} else {
+			go body(g)
+		}
 	}
 	wg.Wait()
 	for i, ct := range caches {
